@@ -24,6 +24,13 @@ def _violations(mod, sources) -> List[tuple]:
     ctx = engine.Context(prog)
     rep = engine.Reporter(mod.PROP)
     mod.run(ctx, rep)
+    scope = engine.CONTRACT_SCOPE.get(mod.PROP)
+    if scope is not None:
+        from .util import numpy_contract_pack
+
+        files, what = scope
+        funcs = [f for f in ctx.prog.functions.values() if f.module.relpath.split("/")[-1] in files]
+        rep.guard(numpy_contract_pack, ctx, rep, f"{mod.PROP}.z", funcs, what)
     viol = [(o.rule, o.func, o.key, o.loc, o.msg) for o in rep.obligations if not o.ok]
     if rep.errors and not viol:
         raise AnalysisError("; ".join(rep.errors))
